@@ -157,6 +157,7 @@ def create_database(
     )
     file_hash_path = _get_file_hash_path(cmd.zettel_dir)
     file_to_hash = _get_file_hash_map(cmd.zettel_dir)
+    _forget_pages_with_pending_events(cmd.zettel_dir, file_to_hash, zorg_pages)
     _write_file_hash_to_disk(file_hash_path, file_to_hash)
     c.atomic_write_text(error_file_whitelist, "\n".join(sorted(error_files)))
     session.commit()
@@ -180,6 +181,7 @@ def reindex_database(
     error_files = error_file_whitelist.read_text().split("\n")
 
     num_of_updates = 0
+    zorg_pages = []
     if cmd.paths:
         # Only the given paths are reindexed, so we MUST keep what we know
         # about every other file.
@@ -248,11 +250,13 @@ def reindex_database(
             _check_for_modified_notes(cmd.zettel_dir, zorg_page, old_zorg_page)
             _LOGGER.debug("Adding zorg file", file=zorg_page_name)
             session.repo.add_file(zorg_page)
+            zorg_pages.append(zorg_page)
             session.commit()
 
     if num_of_updates == 0:
         c.zprint("NO ZORG FILES HAVE BEEN MODIFIED")
 
+    _forget_pages_with_pending_events(cmd.zettel_dir, file_to_hash, zorg_pages)
     _write_file_hash_to_disk(file_hash_path, file_to_hash)
     c.atomic_write_text(error_file_whitelist, "\n".join(sorted(error_files)))
     session.commit()
@@ -297,6 +301,22 @@ def update_note_modify_dates(
         get_thing=lambda _: today_short_date,
         log_message="Updating modify dates",
     )
+
+
+def _forget_pages_with_pending_events(
+    zdir: Path, file_to_hash: dict[str, str], zorg_pages: Iterable[Page]
+) -> None:
+    """Removes pages that still need to be rewritten from {file_to_hash}.
+
+    A page with pending events (new ZIDs / modify dates that still have to be
+    written back to the file) does NOT match the DB yet. Its hash is recorded
+    by the event handler once the file has been rewritten. Otherwise, if we
+    get killed before that happens, the next reindex would consider the page
+    to be up-to-date and the DB and the file would disagree forever.
+    """
+    for zorg_page in zorg_pages:
+        if zorg_page.events:
+            file_to_hash.pop(c.strip_zdir(zdir, zorg_page.path), None)
 
 
 def _get_zo_paths_to_index(zdir: Path) -> list[Path]:
